@@ -1,5 +1,6 @@
 import BarterModel.Lemmas.TearSheet
 import BarterModel.Lemmas.KernelsAgree.Metric
+import BarterModel.Lemmas.KernelsAgree.PnLReturnsSM
 /-!
 # C16 — Tear-sheet PnL, win rate and profit factor match the closed positions
 
@@ -271,5 +272,23 @@ theorem kernels_agree_with_source :
         (BarterModel.Generated.ProfitFactor.calculate profitsGrossAbs lossesGrossAbs).map (·.value)
           = ProfitFactor.calculate profitsGrossAbs lossesGrossAbs) :=
   BarterModel.KernelsAgree.metric_kernels_agree
+
+/-- **Tie of the whole state machine to the source by translation.** `PnLReturns` (struct, derived
+`Default`, `update`), `TearSheetGenerator` (struct, `init`, `update_from_position`), the derived
+`Default`s of the three drawdown generators, `Timed::new` and `calculate_pnl_return` are regenerated
+from the current `barter/src/statistic/summary/{pnl,instrument}.rs` (+ `position.rs`, `lib.rs`,
+`metric/drawdown/*.rs`) by `tools/rust2lean_sm.py` on every run (`Generated/Machines2.lean`, group
+`pnl_returns`). (A) Through the projections `ofClosed` / `ofDS` / `ofPnL` / `ofTSG` onto the reduced
+records of this file's model (surjective: sections `toDS` / `toPnL` / `toTSG`) every generated step
+function commutes with the model's `PnLReturns.update` / `TearSheetGenerator.{init,
+updateFromPosition}` the theorems above are about — for all generator states, all exited positions,
+all key types and EVERY behaviour of the untranslated `sqrt`. (B) Through the bijection `ofFull` /
+`toFull` with the complete generator model `Metrics.Gen` (sub-check C16M: clock, `pnl_raw`, both full
+`DataSetSummary`s, the three drawdown generators) `init` and `update_from_position` agree on every
+field for every `sqrt` honouring its contract. `generate` is not part of this tie. The statement is
+that of `KernelsAgree.PnLReturnsSM.pnl_returns_sm_agree` (Lemmas/KernelsAgree/PnLReturnsSM.lean). -/
+theorem state_machine_agrees_with_source :
+    type_of% BarterModel.KernelsAgree.PnLReturnsSM.pnl_returns_sm_agree :=
+  BarterModel.KernelsAgree.PnLReturnsSM.pnl_returns_sm_agree
 
 end BarterModel.Props.C16
